@@ -370,11 +370,13 @@ Lemma field_tokens_map phi d c s1 s2 f :
   alloc_tokens (s_alloc s2) = map phi (alloc_tokens (s_alloc s1)) ->
   field_tokens s2 (map_fi phi f) = rmap (map phi) (field_tokens s1 f).
 Proof.
-  intros Hok Ha. unfold field_tokens. cbv zeta. cbn [map_fi fi_path fi_boxed].
+  intros Hok Ha. unfold field_tokens. cbv zeta.
+  replace (fi_emit_boxed (map_fi phi f)) with (fi_emit_boxed f) by (destruct f; reflexivity).
+  cbn [map_fi fi_path fi_boxed].
   rewrite Ha, (tp_tokens_map phi d c _ _ Hok).
   destruct (tp_tokens (alloc_tokens (s_alloc s1)) (fi_path f)) as [t|e|msg]; cbn [rmap bind];
     try reflexivity.
-  destruct (fi_boxed f); cbn [rmap bind]; [|reflexivity].
+  destruct (fi_emit_boxed f); cbn [rmap bind]; [|reflexivity].
   f_equal. rewrite !map_app.
   rewrite (em_abs_lits phi d c ["boxed"; "Box"] Hok) by (vm_compute; reflexivity).
   cbn [map]. fix_lits phi Hok. reflexivity.
